@@ -7,8 +7,14 @@
 use std::sync::atomic::{AtomicU32, AtomicU64, Ordering::Relaxed};
 use std::task::{RawWaker, RawWakerVTable, Waker};
 
+#[cfg(not(miri))]
 pub const MAX_IDS: usize = 1 << 14;
+#[cfg(miri)]
+pub const MAX_IDS: usize = 1 << 10;
+#[cfg(not(miri))]
 const LOG_LEN: usize = 1 << 12;
+#[cfg(miri)]
+const LOG_LEN: usize = 1 << 8;
 
 /// Global logical clock: bumped by every poll and every wake.
 static SEQ: AtomicU64 = AtomicU64::new(1);
